@@ -2,7 +2,7 @@
 # tools/wave.sh <wt dir> <props...> : confirm every sub-agent change under <wt>/<prop>.out/m* in a scratch worktree,
 # then run the property's quick check against each confirmed one (results in <wt>/confirm.jsonl, <wt>/eval.jsonl).
 WT=$1; shift
-cd /verif
+cd ${EVAL_VERIF:-/verif}
 for p in "$@"; do
   for d in $WT/$p.out/m*; do
     [ -f $d/patch.diff ] || continue
